@@ -181,11 +181,11 @@ func (goh *GoatOverHttp) connectionCleaner() {
 			ticker.Stop()
 			return
 		case <-ticker.Chan():
-			now := goh.clock.Now().Unix()
+			now := goh.clock.Now().UnixNano()
 
 			goh.conns.Lock()
 			for _, conn := range goh.conns.value {
-				if now-conn.lastActivity.Load() >= int64(goh.connectionTimeout.Seconds()) {
+				if time.Duration(now-conn.lastActivity.Load()) >= goh.connectionTimeout {
 					log.Info().Msgf("GoatOverHttp: timing out conn to %s", conn.writeAddr)
 					goh.unregisterLocked(conn.writeAddr)
 				}
@@ -300,5 +300,5 @@ func (hrw *httpReadWriter) Write(ctx context.Context, rpc *Rpc) error {
 }
 
 func (hrw *httpReadWriter) bumpActivity() {
-	hrw.lastActivity.Store(hrw.clock.Now().Unix())
+	hrw.lastActivity.Store(hrw.clock.Now().UnixNano())
 }
